@@ -422,6 +422,23 @@ pub fn check_structure(s: &Snapshot) -> Result<(), Failure> {
         total += bucket.nodes.len();
     }
     vensure!(total == s.len, "len-mismatch", "recorded len {} but {} entries exist", s.len, total);
+    // the scan window is one bucket wide and sits on the bucket `head` points at
+    vensure!(
+        s.t1_nanos == s.t0_nanos + s.t_nanos,
+        "scan-window-width",
+        "scan window [{}, {}] is not one bucket ({} ns) wide",
+        s.t0_nanos,
+        s.t1_nanos,
+        s.t_nanos
+    );
+    vensure!(
+        ((s.t0_nanos % year) / s.t_nanos) as usize % s.n == s.head && s.t0_nanos % s.t_nanos == 0,
+        "scan-window-head",
+        "scan window starts at {} ns which is bucket {} but head = {}",
+        s.t0_nanos,
+        ((s.t0_nanos % year) / s.t_nanos) as usize % s.n,
+        s.head
+    );
     Ok(())
 }
 
